@@ -1,4 +1,5 @@
 """C17 — in-silico digestion: correspondence of Model/Digest.v with mokapot.digest."""
+import bisect
 import itertools
 import re
 
@@ -6,27 +7,61 @@ from .. import lib
 from ..lib import call_impl
 
 PROP = "C17"
-RULE = ("cases: one call of mokapot.digest(sequence, enzyme, mc, clip, min, max, semi) each.  (1) exhaustive: every "
+RULE = ("cases: one call of mokapot.digest(sequence, enzyme, mc, clip, min, max, semi) each (style 'twice': two calls).  "
+        "(1) exhaustive: every "
         "sequence over {K,P,A,M} up to length 4 (quick) / 5 (thorough) x the FULL grid enzymes {[KR], [KR](?!P), K, (?<=R)} "
         "x mc 0..3 x 6 (min,max) pairs x clip x semi (384 grid points); every longer sequence up to length 6 (quick) / 8 "
         "(thorough) x a strided sub-grid (12 grid points per sequence, the stride walks the whole grid so every grid "
         "point is hit equally often); lengths 7-8 (quick): every 8th sequence, lengths 9-10 (thorough): every 4th "
         "sequence (offset by length), one grid point each — i.e. lengths 9-10 are SAMPLED, not exhaustive; every "
-        "sequence over {K,R,P,A,M} up to length 4 (quick) / 6 (thorough) x strided sub-grid; (2) random sequences over the "
-        "20 amino acids (K/R/P/M enriched) to length 200, random parameters, 8 enzymes incl. look-behind and '.'; "
+        "sequence over {K,R,P,A,M} up to length 4 (quick) / 6 (thorough) x strided sub-grid; (1e) every sequence over "
+        "{K,R,D,P,M,F} up to length 4 / 5 x strided grid over the 12 enzyme expressions of the mokapot cookbook (Lys-N "
+        "'.(?=K)', CNBr 'M', Glu-C, alternation with a group, ...); (1f) every sequence over {K,P,A,M,D} up to length 4 / 6 x "
+        "strided grid over 24 patterns whose matches are NOT one residue wide (KK, [KR]{2}, K+, K*, KP|K, K.?, ^M, $, "
+        "groups, (?i), look-behind + residue) — every third case passes the pattern as a compiled regex; (1g) every "
+        "sequence over {K,k,M,m,P,A} up to length 4 / 5 x strided grid over case-sensitive patterns and compiled patterns "
+        "with re.IGNORECASE / re.VERBOSE; (2) random sequences over the "
+        "20 amino acids (K/R/P/M enriched) to length 700 (crossing 255), random parameters (min up to 60, max up to 1000, "
+        "mc up to 5), 8 enzymes incl. look-behind and '.'; "
         "(3) corner stream: negative / zero parameters, empty sequence, exotic patterns whose matches are empty or end at 0 "
-        "('', 'K|', '(?=K)', '(?=M)', '.').  Residue-class enzymes run the model's own site computation; all other "
-        "patterns pass the match ends recorded from Python's re engine.  distinct = distinct (sequence, enzyme, parameters); "
-        "non-trivial = the digest has >= 2 peptides or clip/semi is on")
+        "('', 'K|', '(?=K)', '(?=M)', '.'); (4) symbols stream: short sequences with lower case, '*', '-', digits, blank, "
+        "newline, tab and non-ASCII / astral code points, patterns incl. \\w \\W \\s (?s). [^A-Z]; (5) call-style stream: "
+        "0..6 leading arguments positional, `sequence=` by keyword, any subset of the optional arguments OMITTED (the model "
+        "then gets the defaults of the pinned signature: [KR], 0, False, 6, 50, False), numpy int64 / bool_ and 0/1 "
+        "arguments, compiled regex (flags 0, I, S, X), style 'twice' = call, clear() the returned set, call again, both "
+        "results must agree; sequences built from segments of length 1-8 and 45-56 so that the default bounds 6 / 50 are "
+        "straddled; (6) defaults stream: all 64 subsets of omitted optional arguments x segment sequences, the passed "
+        "arguments all differ from their defaults; (7) long stream: lengths 1 500-3 000 (also semi), 10 000 / 35 000 "
+        "(thorough) and 70 000 residues (sites beyond 255 / 32 767 / 65 535), mc 50 / 1000 and bounds up to 5 000 on "
+        "sequences up to 300.  All of these go through the Coq model: residue-class enzymes (no flags) run the model's own site computation; all other "
+        "patterns pass the match ends recorded from Python's re engine (same pattern, same flags).  (8) in extra_checks, "
+        "PROPERTY ORACLE ONLY (the model's unary numbers cannot hold them): min / max / out of {+-2^31, +-2^63, 2^64, "
+        "+-10^30} as int and numpy.int64.  distinct = distinct (sequence, enzyme, flags, parameters, call style); "
+        "non-trivial = the implementation returned >= 2 distinct peptides for the case")
 ASSUMPTIONS = [
-    "sequences are str over ASCII letters; 'M' is code 77",
-    "for patterns that are not a residue class (optionally with one-residue negative look-ahead) the match ends of "
-    "re.finditer are taken from the real engine and passed to the model as data; the contract (ends non-decreasing, "
+    "sequences are str (any code points; exercised: ASCII letters of both cases, '*', '-', digits, blank, newline, tab, "
+    "U+00C4, U+043A, U+1D510); 'M' is code 77",
+    "for patterns that are not a residue class (optionally with one-residue negative look-ahead), and for every "
+    "compiled pattern with flags, the match ends of re.finditer (same pattern, same flags, compiled by the harness) "
+    "are taken from the real engine and passed to the model as data; the contract (ends non-decreasing, "
     "within 0..len) is checked on every such case",
     "the returned set is compared as a sorted list; multiplicity/order of the model's list is irrelevant",
+    "an omitted optional argument means the default of the pinned signature of mokapot.digest: enzyme_regex='[KR]', "
+    "missed_cleavages=0, clip_nterm_methionine=False, min_length=6, max_length=50, semi=False; the positional order "
+    "is that of the pinned signature",
+    "the caller owns the returned set: clearing it must not influence a later call (style 'twice')",
+    "missed_cleavages is kept <= 1000: the code iterates range(1, mc + 2) for every start site even beyond the last "
+    "site (cost, not correctness)",
 ]
 TRUSTED_EXTRA = ["Python re engine (oracle for non-class enzyme patterns; cross-checked against the model's site "
                  "computation for the residue-class patterns in extra_checks)"]
+
+# the pinned signature: digest(sequence, enzyme_regex, missed_cleavages, clip_nterm_methionine, min_length,
+# max_length, semi)
+PARAMS = ["enzyme", "mc", "clip", "min", "max", "semi"]
+KWNAME = {"enzyme": "enzyme_regex", "mc": "missed_cleavages", "clip": "clip_nterm_methionine",
+          "min": "min_length", "max": "max_length", "semi": "semi"}
+DEFAULTS = {"enzyme": "[KR]", "mc": 0, "clip": False, "min": 6, "max": 50, "semi": False}
 
 # residue-class enzymes the model computes itself: pattern -> (class, nofollow)
 CLASS_ENZ = {
@@ -36,22 +71,44 @@ CLASS_ENZ = {
     "R": ("R", ""),
     "[KR](?![PM])": ("KR", "PM"),
     "K(?!P)": ("K", "P"),
+    "R(?!P)": ("R", "P"),
+    "M": ("M", ""),
+    "[DE](?!P)": ("DE", "P"),
+    "[FL](?!P)": ("FL", "P"),
+    "[FWYL](?!P)": ("FWYL", "P"),
+    "[KRFWYL](?!P)": ("KRFWYL", "P"),
+    "k": ("k", ""),
+    "[Kk]": ("Kk", ""),
 }
 GRID_ENZ = ["[KR]", "[KR](?!P)", "K", "(?<=R)"]
 GRID_ENZ_R = ["[KR]", "[KR](?!P)", "R", "(?<=R)", "(?<=[KR])(?!P)", "K(?!P)"]
+# docs/source/cookbook.rst, "Enzyme Regular Expressions"
+DOC_ENZ = ["[KR]", "[KR](?!P)", "K(?!P)", ".(?=K)", "R(?!P)", ".(?=D)", "M", "[DE](?!P)", "[FL](?!P)",
+           "[FWYL](?!P)", "([KR](?!P)|[FWYL](?!P))", "[KRFWYL](?!P)"]
+# matches that are not exactly one residue wide / anchors / groups / inline flags
+WIDE_ENZ = ["KK", "[KR]{2}", "K+", "K*", "[KM][AP]", "KP|K", "K|KP", "(K)|(M)", "(?P<s>[KM])(?!P)", "^M", "M|K$", "$",
+            "\\w(?=D)", "(?<=K)A", "(?i)k", "[^P](?=K)", "K.?", "(?=KK)K", "\\bM", "A{2,3}", "(?s).", "..", "(?<=K)..",
+            "(K(?=A))?"]
+# (pattern, flags): case sensitivity and compiled patterns with flags
+CASE_ENZ = [("[KR]", 0), ("[kr]", re.I), ("[KR](?!P)", re.I), ("k", 0), ("(?i)k(?!p)", 0), ("[Kk]", 0), ("M", 0),
+            ("m", re.I), ("[KR] (?!P)  # trypsin/p", re.X), ("k (?=m)", re.X | re.I), ("K", re.I), ("m|K", 0)]
 BOUNDS = [(0, 50), (1, 50), (2, 4), (3, 3), (1, 2), (4, 10)]
 _RX = {}
 
 
-def _rx(p):
-    r = _RX.get(p)
+def _rx(p, flags=0):
+    r = _RX.get((p, flags))
     if r is None:
-        r = _RX[p] = re.compile(p)
+        r = _RX[(p, flags)] = re.compile(p, flags)
     return r
 
 
-def ends_of(enzyme, seq):
-    return [m.end() for m in _rx(enzyme).finditer(seq)]
+def ends_of(enzyme, seq, flags=0):
+    return [m.end() for m in _rx(enzyme, flags).finditer(seq)]
+
+
+def _ends(c):
+    return ends_of(c["enzyme"], c["seq"], c.get("flags", 0))
 
 
 def _grid(enzymes):
@@ -60,9 +117,29 @@ def _grid(enzymes):
             for clip in (False, True) for semi in (False, True)]
 
 
-def _case(seq, e, mc, mn, mx, clip, semi, tags):
-    return {"fn": "digest", "seq": seq, "enzyme": e, "mc": mc, "min": mn, "max": mx,
-            "clip": bool(clip), "semi": bool(semi), "tags": tags}
+def _case(seq, e, mc, mn, mx, clip, semi, tags, **style):
+    """style keys (all optional, absent = plain keyword call with a str pattern):
+    flags (int, needs compiled), compiled (bool), npos (0..6 leading optional arguments passed positionally),
+    seqkw (sequence= by keyword; only with npos = 0), omit (names of omitted arguments; their values here are the
+    defaults), style ('np' | 'intflags'), twice (bool)"""
+    c = {"fn": "digest", "seq": seq, "enzyme": e, "mc": mc, "min": mn, "max": mx,
+         "clip": bool(clip), "semi": bool(semi), "tags": tags}
+    for k, v in style.items():
+        if v:
+            c[k] = v
+    return c
+
+
+def _with(c, **d):
+    """copy of the case with some parameters changed; a changed parameter is no longer omitted"""
+    c2 = dict(c, **d)
+    if c.get("omit"):
+        om = [p for p in c["omit"] if p not in d]
+        if om:
+            c2["omit"] = om
+        else:
+            c2.pop("omit")
+    return c2
 
 
 def _all_seqs(alpha, n):
@@ -71,9 +148,43 @@ def _all_seqs(alpha, n):
             yield "".join(t)
 
 
+AA = "ACDEFGHILNQSTVWY" + "KKKRRRPPMM"
+
+
+def _seg_seq(rng, nseg=None):
+    """segments of length 1-8 and 45-56 ending in K/R: peptides straddle the default bounds 6 and 50"""
+    segs = []
+    for _ in range(nseg or rng.randint(1, 7)):
+        L = rng.choice([0, 1, 2, 4, 5, 5, 6, 7, rng.randint(8, 20), 44, 47, 48, 49, 50, 51, 55])
+        segs.append("".join(rng.choice("ACDEFGHILNQSTVWYPM") for _ in range(L)) + rng.choice("KKR"))
+    s = "".join(segs)
+    if rng.random() < 0.5:
+        s = s[:-1]
+    if rng.random() < 0.4 and s:
+        s = "M" + s[1:]
+    return s
+
+
+def _strided(cases, seqs, grid, k, tag, mult, step, every_compiled=0):
+    G = len(grid)
+    n = 0
+    for s in seqs:
+        for j in range(k):
+            g = grid[(n * mult + j * step) % G]
+            if isinstance(g[0], tuple):                      # (pattern, flags)
+                (pat, fl), rest = g[0], g[1:]
+                cases.append(_case(s, pat, *rest, [tag, f"len={len(s)}", pat + (f"/flags={fl}" if fl else "")],
+                                   flags=fl, compiled=bool(fl) or (n + j) % 2 == 1))
+            else:
+                comp = bool(every_compiled) and (n + j) % every_compiled == 0
+                cases.append(_case(s, *g, [tag, f"len={len(s)}", g[0]] + (["compiled"] if comp else []), compiled=comp))
+        n += 1
+
+
 def gen(ctx):
     cases = []
-    full_len, strided_len, k_strided, sampled, every = (5, 8, 12, (9, 10), 4) if ctx.thorough else (4, 6, 12, (7, 8), 8)
+    T = ctx.thorough
+    full_len, strided_len, k_strided, sampled, every = (5, 8, 12, (9, 10), 4) if T else (4, 6, 12, (7, 8), 8)
     grid = _grid(GRID_ENZ)
     G = len(grid)
     # (1a) full grid on the shortest sequences
@@ -101,16 +212,24 @@ def gen(ctx):
     gridr = _grid(GRID_ENZ_R)
     GR = len(gridr)
     n = 0
-    for s in _all_seqs("KRPAM", 6 if ctx.thorough else 4):
-        for j in range(6 if ctx.thorough else 8):
+    for s in _all_seqs("KRPAM", 6 if T else 4):
+        for j in range(6 if T else 8):
             g = gridr[(n * 11 + j * 97) % GR]
             cases.append(_case(s, *g, ["exh-R", f"len={len(s)}", g[0]]))
         n += 1
+    # (1e) the documented enzymes (cookbook), six-letter alphabet with D and F       (grid 1152 = 2^7 * 9)
+    _strided(cases, _all_seqs("KRDPMF", 5 if T else 4), _grid(DOC_ENZ), 12 if T else 24, "exh-doc", 7, 125,
+             every_compiled=5)
+    # (1f) patterns whose matches are not one residue wide                             (grid 2304 = 2^8 * 9)
+    _strided(cases, _all_seqs("KPAMD", 6 if T else 4), _grid(WIDE_ENZ), 10 if T else 48, "exh-wide", 11, 385,
+             every_compiled=3)
+    # (1g) letter case and compiled patterns with flags                                (grid 1152)
+    _strided(cases, _all_seqs("KkMmPA", 5 if T else 4), _grid(CASE_ENZ), 12 if T else 16, "exh-case", 13, 125)
     # (2) random long sequences
     rng = ctx.sub("random")
-    aa = "ACDEFGHILNQSTVWY" + "KKKRRRPPMM"
+    aa = AA
     enz = ["[KR]", "[KR](?!P)", "K", "(?<=R)", "[KR](?![PM])", "(?<=[KR])(?!P)", "K(?!P)", "."]
-    for _ in range(6000 if ctx.thorough else 1500):
+    for _ in range(6000 if T else 1500):
         L = rng.choice([rng.randint(0, 20), rng.randint(20, 60), rng.randint(60, 200)])
         s = "".join(rng.choice(aa) for _ in range(L))
         if rng.random() < 0.4 and s:
@@ -119,41 +238,191 @@ def gen(ctx):
         mx = rng.choice([mn, mn + 1, mn + 5, 20, 50, 50, 100])
         cases.append(_case(s, rng.choice(enz), rng.choice([0, 0, 1, 2, 3, 5]), mn, mx,
                            rng.random() < 0.5, rng.random() < 0.4, ["random", "len>20" if L > 20 else "len<=20"]))
+    # (2b) the same with lengths across 255, wider bounds, all enzyme lists
+    rng = ctx.sub("random-wide")
+    allenz = enz + DOC_ENZ + WIDE_ENZ
+    for _ in range(5000 if T else 800):
+        L = rng.choice([rng.randint(180, 300), rng.randint(240, 270), rng.randint(300, 700)])
+        s = "".join(rng.choice(aa) for _ in range(L)) if rng.random() < 0.6 else _seg_seq(rng, rng.randint(5, 14))
+        if rng.random() < 0.3 and s:
+            s = "M" + s[1:]
+        mn = rng.choice([0, 1, 6, 7, 20, 50, 60])
+        mx = rng.choice([mn, mn + 10, 50, 100, 250, 256, 1000])
+        mc = rng.choice([0, 0, 1, 2, 3, 5])
+        semi = rng.random() < 0.15 and mx <= 100 and mc <= 1 and len(s) <= 320      # the code's semi loop copies the set
+        cases.append(_case(s, rng.choice(allenz), mc, mn, mx,
+                           rng.random() < 0.5, semi, ["random-wide", "len>255" if len(s) > 255 else "len<=255"],
+                           compiled=rng.random() < 0.3))
     # (3) corners: odd parameters and exotic patterns
     rng = ctx.sub("corner")
     exotic = ["", "K|", "(?=K)", "(?=M)", ".", "(?<!A)", "[KR]", "(?<=R)"]
-    for _ in range(4000 if ctx.thorough else 1200):
+    for _ in range(4000 if T else 1200):
         L = rng.randint(0, 7)
         s = "".join(rng.choice("KRPAM") for _ in range(L))
         cases.append(_case(s, rng.choice(exotic), rng.choice([-2, -1, 0, 1, 2, 9]),
                            rng.choice([-3, -1, 0, 1, 2, 3]), rng.choice([-1, 0, 1, 2, 3, 5, 50]),
                            rng.random() < 0.5, rng.random() < 0.5, ["corner"]))
+    # (4) symbols: lower case, non-letters, white space, non-ASCII
+    rng = ctx.sub("symbols")
+    sym = "KKRRPMMkrm*-X1 \n\tÄк\U0001d510AD"
+    symenz = allenz + [".", "(?s).", "\\w", "\\W", "\\s", "[^A-Z]", "\\*", "[KR\\n]", "(?m)$", "(?m)^", "к", "[\U0001d510K]"]
+    for _ in range(20000 if T else 4000):
+        L = rng.randint(0, 12)
+        s = "".join(rng.choice(sym) for _ in range(L))
+        if rng.random() < 0.3 and s:
+            s = rng.choice("Mm") + s[1:]
+        mn = rng.choice([0, 1, 1, 2, 3])
+        cases.append(_case(s, rng.choice(symenz), rng.choice([0, 1, 2, 3]), mn, rng.choice([mn, 3, 5, 50]),
+                           rng.random() < 0.5, rng.random() < 0.4, ["symbols"], compiled=rng.random() < 0.3))
+    # (5) call styles
+    rng = ctx.sub("style")
+    flagged = [("[kr]", re.I), ("[KR](?!P)", re.I), (".", re.S), ("[KR] (?!P)  # trypsin/p", re.X), ("k (?=m)", re.X | re.I),
+               ("(?<=[kr])(?!p)", re.I), ("[KR]", 0), ("[KR](?!P)", 0), (".(?=K)", 0), ("M", 0)]
+    for _ in range(40000 if T else 8000):
+        r = rng.random()
+        if r < 0.5:
+            s = _seg_seq(rng)
+        elif r < 0.8:
+            s = "".join(rng.choice(aa) for _ in range(rng.randint(0, 80)))
+        else:
+            s = "".join(rng.choice("KkRrMmPpAa\n") for _ in range(rng.randint(0, 14)))
+        if rng.random() < 0.3 and s:
+            s = "M" + s[1:]
+        st = {}
+        if rng.random() < 0.4:
+            e, fl = rng.choice(flagged)
+            st["flags"] = fl
+            st["compiled"] = True
+        else:
+            e = rng.choice(allenz)
+            st["compiled"] = rng.random() < 0.3
+        mn = rng.choice([0, 1, 2, 5, 6, 7, 10])
+        vals = {"enzyme": e, "mc": rng.choice([0, 0, 1, 2, 3, 5]), "clip": rng.random() < 0.5, "min": mn,
+                "max": rng.choice([mn, mn + 5, 20, 49, 50, 51, 100]), "semi": rng.random() < 0.3}
+        npos = rng.choice([0, 0, 0, 1, 2, 3, 4, 5, 6])
+        omit = [p for p in PARAMS[npos:] if rng.random() < 0.35]
+        for p in omit:
+            vals[p] = DEFAULTS[p]
+        if "enzyme" in omit:
+            st.pop("flags", None)
+            st["compiled"] = False
+        st["npos"] = npos
+        st["omit"] = omit
+        st["seqkw"] = npos == 0 and rng.random() < 0.25
+        st["style"] = rng.choice(["", "", "np", "intflags"])
+        st["twice"] = rng.random() < 0.25
+        tags = ["style", f"npos={npos}", f"omitted={len(omit)}"] + ["omit:" + p for p in omit]
+        tags += [t for t, on in (("compiled", st["compiled"]), ("flags", st.get("flags")), ("seq-by-keyword", st["seqkw"]),
+                                 ("args:" + st["style"], st["style"]), ("twice", st["twice"])) if on]
+        cases.append(_case(s, vals["enzyme"], vals["mc"], vals["min"], vals["max"], vals["clip"], vals["semi"],
+                           tags, **st))
+    # (6) defaults: every subset of omitted arguments; the passed ones differ from their defaults
+    rng = ctx.sub("defaults")
+    for _ in range(100 if T else 16):
+        s = _seg_seq(rng, rng.randint(3, 8))
+        if rng.random() < 0.6:
+            s = "M" + s[1:]
+        for bits in range(64):
+            omit = [p for k, p in enumerate(PARAMS) if bits >> k & 1]
+            vals = {"enzyme": rng.choice(["[KR](?!P)", "K", ".(?=K)"]), "mc": rng.choice([1, 2]), "clip": True,
+                    "min": rng.choice([2, 5, 7]), "max": rng.choice([30, 49, 51, 60]), "semi": True}
+            for p in omit:
+                vals[p] = DEFAULTS[p]
+            cases.append(_case(s, vals["enzyme"], vals["mc"], vals["min"], vals["max"], vals["clip"], vals["semi"],
+                               ["defaults", f"omitted={len(omit)}"] + ["omit:" + p for p in omit], omit=omit))
+    # (7) long sequences and large (model-sized) parameters
+    rng = ctx.sub("long")
+    longs = [(1500, True), (2000, False), (3000, False), (3000, True)]
+    longs += [(10000, False), (35000, False), (70000, False), (70000, False)] if T else [(70000, False)]
+    for L, semi in longs:
+        s = "".join(rng.choice(aa) for _ in range(L))
+        if L >= 70000:
+            s = s[:66000] + s[66000:].replace("P", "A")      # sites certainly beyond 65 535
+        e = rng.choice(["[KR]", "[KR](?!P)"]) if L >= 35000 else rng.choice(["[KR]", "[KR](?!P)", ".(?=K)", "K(?!P)", "KK|R"])
+        if rng.random() < 0.5:
+            s = "M" + s[1:]
+        cases.append(_case(s, e, 1 if L >= 70000 else rng.choice([0, 2]), 6, 50 if not semi else 12, rng.random() < 0.7, semi,
+                           ["long", f"len={L}"], compiled=L == 3000))
+    for _ in range(120 if T else 40):
+        s = _seg_seq(rng, rng.randint(2, 10))[:300]
+        mn = rng.choice([0, 1, 6, 100, 300, 301, 5000])
+        cases.append(_case(s, rng.choice(DOC_ENZ), rng.choice([50, 1000, len(s), 7]), mn,
+                           rng.choice([mn, 299, 300, 301, 1000, 5000]), rng.random() < 0.5, rng.random() < 0.2,
+                           ["large-params"]))
+    # the runner copies the cases at the quarter points (the last one included) into the evidence file: keep the
+    # tiny corner cases at the end so that no 70 000-residue case or 10^5-peptide result is copied there
+    cases.sort(key=lambda c: c["tags"][0] == "corner")
     return cases
 
 
 def encode(c):
     params = " ".join([lib.z(c["mc"]), lib.z(c["min"]), lib.z(c["max"]), lib.b(c["semi"]), lib.b(c["clip"])])
-    cl = CLASS_ENZ.get(c["enzyme"])
+    cl = CLASS_ENZ.get(c["enzyme"]) if not c.get("flags") else None
     if cl is not None:
         return f"c17.digest_class {lib.s(cl[0])} {lib.s(cl[1])} {lib.s(c['seq'])} {params}"
-    return f"c17.digest_ends {lib.s(c['seq'])} {lib.lst(ends_of(c['enzyme'], c['seq']))} {params}"
+    return f"c17.digest_ends {lib.s(c['seq'])} {lib.lst(_ends(c))} {params}"
 
 
 def decode(c, t):
     return sorted(set(t.lst(t.s)))
 
 
+def _call_args(c):
+    """positional and keyword arguments of the call the case describes"""
+    enz = c["enzyme"]
+    if c.get("compiled") or c.get("flags"):
+        enz = re.compile(enz, c.get("flags", 0))
+    vals = {"enzyme": enz, "mc": c["mc"], "clip": c["clip"], "min": c["min"], "max": c["max"], "semi": c["semi"]}
+    style = c.get("style", "")
+    if style == "np":
+        import numpy as np
+        for p in ("mc", "min", "max"):
+            if -2 ** 63 <= vals[p] < 2 ** 63:
+                vals[p] = np.int64(vals[p])
+        for p in ("clip", "semi"):
+            vals[p] = np.bool_(vals[p])
+    elif style == "intflags":
+        for p in ("clip", "semi"):
+            vals[p] = int(vals[p])
+    npos = c.get("npos", 0)
+    # an argument may only be left out when the case really carries the default for it
+    omit = {p for p in c.get("omit", []) if p in PARAMS[npos:] and c[p] == DEFAULTS[p]
+            and not (p == "enzyme" and (c.get("compiled") or c.get("flags")))}
+    args = [vals[p] for p in PARAMS[:npos]]
+    kwargs = {KWNAME[p]: vals[p] for p in PARAMS[npos:] if p not in omit}
+    if c.get("seqkw") and npos == 0:
+        kwargs["sequence"] = c["seq"]
+    else:
+        args.insert(0, c["seq"])
+    return args, kwargs
+
+
+_NPEP = {}
+
+
 def _digest(c):
     import mokapot
-    r = mokapot.digest(c["seq"], enzyme_regex=c["enzyme"], missed_cleavages=c["mc"],
-                       clip_nterm_methionine=c["clip"], min_length=c["min"], max_length=c["max"],
-                       semi=c["semi"])
-    return sorted(r)
+    args, kwargs = _call_args(c)
+    r = mokapot.digest(*args, **kwargs)
+    out = sorted(r)
+    if c.get("twice"):
+        # the caller owns the result: emptying it must not change what the next identical call returns
+        try:
+            r.clear()
+        except AttributeError:
+            pass
+        args, kwargs = _call_args(c)
+        again = sorted(mokapot.digest(*args, **kwargs))
+        if again != out:
+            return ("unstable", out, again)
+    return out
 
 
 def impl(c):
     r = call_impl(_digest, c)
-    return r[1] if r[0] == "ok" else r
+    r = r[1] if r[0] == "ok" else r
+    _NPEP[id(c)] = len(set(r)) if isinstance(r, list) else 0
+    return r
 
 
 def same(c, m, i):
@@ -161,13 +430,18 @@ def same(c, m, i):
 
 
 def nontrivial(c):
-    return c["clip"] or c["semi"] or len(ends_of(c["enzyme"], c["seq"])) >= 1
+    """the implementation returned at least two distinct peptides for this case"""
+    n = _NPEP.get(id(c))
+    if n is None:
+        r = impl(c)
+        n = len(set(r)) if isinstance(r, list) else 0
+    return n >= 2
 
 
 # ----------------------------------------------------------------------------- the property itself
 def sites_of(c):
     s = c["seq"]
-    return [0] + ends_of(c["enzyme"], s) + [len(s)]
+    return [0] + _ends(c) + [len(s)]
 
 
 def contract_ok(c):
@@ -178,7 +452,18 @@ def contract_ok(c):
     return all(1 <= x <= n for x in mids) and all(a <= b for a, b in zip(mids, mids[1:]))
 
 
-def spec_digest(seq, sites, mc, mn, mx, clip, semi):
+def _derive(out, seq, a, b, mn, clip, semi):
+    pep = seq[a:b]
+    out.add(pep)
+    if clip and a == 0 and pep[0] == "M" and len(pep) - 1 >= mn:
+        out.add(pep[1:])
+    if semi:
+        for k in range(max(1, mn), len(pep)):
+            out.add(pep[:k])
+            out.add(pep[len(pep) - k:])
+
+
+def spec_digest_naive(seq, sites, mc, mn, mx, clip, semi):
     """Digest_spec of Props/C17.v, non-empty peptides only (position based, no loops over indices)"""
     out = set()
     S = sorted(set(sites))
@@ -189,75 +474,127 @@ def spec_digest(seq, sites, mc, mn, mx, clip, semi):
             missed = sum(1 for x in sites if a < x < b)
             if missed > mc or not (mn <= b - a <= mx):
                 continue
-            pep = seq[a:b]
-            out.add(pep)
-            if clip and a == 0 and pep[0] == "M" and len(pep) - 1 >= mn:
-                out.add(pep[1:])
-            if semi:
-                for k in range(1, len(pep)):
-                    if k >= mn:
-                        out.add(pep[:k])
-                        out.add(pep[len(pep) - k:])
+            _derive(out, seq, a, b, mn, clip, semi)
+    out.discard("")
+    return out
+
+
+def spec_digest(seq, sites, mc, mn, mx, clip, semi):
+    """the same set for a non-decreasing site list: the number of sites strictly between a and b is read off by
+    bisection and grows with b, so the scan over b stops at the first b with too many (equality with the naive
+    transcription is checked in extra_checks)"""
+    out = set()
+    S = sorted(set(sites))
+    for k, a in enumerate(S):
+        hi_a = bisect.bisect_right(sites, a)
+        for b in S[k + 1:]:
+            if bisect.bisect_left(sites, b) - hi_a > mc:
+                break
+            if mn <= b - a <= mx:
+                _derive(out, seq, a, b, mn, clip, semi)
     out.discard("")
     return out
 
 
 def oracle(c, i):
     if not isinstance(i, list):
-        return f"digest raised {i!r}"
+        return f"digest raised or is not repeatable: {i!r}"[:600]
     seq = c["seq"]
     for p in i:
         if p not in seq:
-            return f"returned peptide {p!r} is not a substring of the protein {seq!r}"
+            return f"returned peptide {p!r} is not a substring of the protein {seq!r}"[:600]
     if contract_ok(c):
         exp = spec_digest(seq, sites_of(c), c["mc"], c["min"], c["max"], c["clip"], c["semi"])
         got = set(i) - {""}
         if got != exp:
-            return (f"digest differs from the enzyme rules: missing {sorted(exp - got)!r}, "
-                    f"unexpected {sorted(got - exp)!r} (sites {sites_of(c)})")
+            return (f"digest differs from the enzyme rules: missing {sorted(exp - got)[:6]!r}, "
+                    f"unexpected {sorted(got - exp)[:6]!r} (sites {sites_of(c)[:40]})")[:900]
         sites = sites_of(c)
         exp_empty = (c["min"] <= 0 and c["mc"] >= 0 and c["max"] >= 0
                      and (len(set(sites)) < len(sites)
                           or (c["clip"] and c["max"] >= 1 and 1 in sites and seq[:1] == "M")))
         if ("" in i) != exp_empty:
-            return f"empty peptide {'returned' if '' in i else 'not returned'} (sites {sites}) against C17_empty_peptide"
+            return (f"empty peptide {'returned' if '' in i else 'not returned'} (sites {sites[:40]}) "
+                    f"against C17_empty_peptide")
     # monotonicity
     for d in (dict(mc=c["mc"] + 1), dict(min=c["min"] - 1), dict(max=c["max"] + 1), dict(semi=True)):
-        c2 = dict(c, **d)
+        c2 = _with(c, **d)
         j = impl(c2)
         if isinstance(j, list) and not set(i) <= set(j):
-            return f"digest shrinks when {d} is allowed: lost {sorted(set(i) - set(j))!r}"
+            return f"digest shrinks when {d} is allowed: lost {sorted(set(i) - set(j))[:6]!r}"
     return None
 
 
 def shrink(c):
     s = c["seq"]
-    for k in range(len(s)):
-        yield dict(c, seq=s[:k] + s[k + 1:])
+    n = len(s)
+    if n > 64:
+        # long sequences: remove aligned blocks (halves ... sixteenths; every candidate costs a model run, so only
+        # halves and quarters beyond 5 000 residues); single residues only once the sequence is short
+        size = n // 2
+        while size >= max(1, n // (4 if n > 5000 else 16)):
+            for k in range(0, n, size):
+                yield dict(c, seq=s[:k] + s[k + size:])
+            size //= 2
+    else:
+        for k in range(n):
+            yield dict(c, seq=s[:k] + s[k + 1:])
+    # plain call first
+    if c.get("twice"):
+        yield {k: v for k, v in c.items() if k != "twice"}
+    if c.get("style"):
+        yield {k: v for k, v in c.items() if k != "style"}
+    if c.get("npos") or c.get("seqkw"):
+        yield {k: v for k, v in c.items() if k not in ("npos", "seqkw")}
+    if c.get("omit"):
+        yield {k: v for k, v in c.items() if k != "omit"}
+    if c.get("compiled") and not c.get("flags"):
+        yield {k: v for k, v in c.items() if k != "compiled"}
     if c["mc"] > 0:
-        yield dict(c, mc=c["mc"] - 1)
+        yield _with(c, mc=c["mc"] - 1)
     if c["semi"]:
-        yield dict(c, semi=False)
+        yield _with(c, semi=False)
     if c["clip"]:
-        yield dict(c, clip=False)
+        yield _with(c, clip=False)
     if c["max"] != 50:
-        yield dict(c, max=50)
+        yield _with(c, max=50)
     if c["min"] > 1:            # stay in the practical domain min_length >= 1 where possible
-        yield dict(c, min=c["min"] - 1)
-    for ch in "A":
-        for k in range(len(s)):
+        yield _with(c, min=c["min"] - 1)
+    if n <= 64:
+        for k in range(n):
             if s[k] not in "KRMPA":
-                yield dict(c, seq=s[:k] + ch + s[k + 1:])
+                yield dict(c, seq=s[:k] + "A" + s[k + 1:])
 
 
 # ----------------------------------------------------------------------------- oracle contracts
+BIG = [2 ** 31 - 1, 2 ** 31, 2 ** 63 - 1, 2 ** 63, 2 ** 64, 10 ** 30]
+
+
+def _big_cases(ctx):
+    """length bounds far outside what the model's unary numbers can hold: checked with the property oracle alone"""
+    rng = ctx.sub("bigint")
+    out = []
+    for _ in range(1500 if ctx.thorough else 500):
+        s = _seg_seq(rng, rng.randint(1, 6)) if rng.random() < 0.7 else "".join(rng.choice("KRPAM") for _ in range(rng.randint(0, 8)))
+        if rng.random() < 0.4 and s:
+            s = "M" + s[1:]
+        mn = rng.choice([0, 1, 2, 6, 6] + [-b for b in BIG] + BIG)
+        mx = rng.choice([50, 50, 7, len(s)] + [-b for b in BIG[:3]] + BIG + BIG)
+        st = {"style": rng.choice(["", "np"]), "npos": rng.choice([0, 0, 6]), "compiled": rng.random() < 0.3}
+        out.append(_case(s, rng.choice(DOC_ENZ), rng.choice([0, 1, 2, 3, 20]), mn, mx, rng.random() < 0.5,
+                         rng.random() < 0.4, ["bigint"], **st))
+    return out
+
+
 def extra_checks(ctx):
     """(i) every regex-oracle site list used meets the contract of _cleavage_sites assumed by the model
     (non-decreasing, within 0..len); (ii) the model's own site computation for the residue-class patterns
-    equals [0] + re match ends + [len] on an exhaustive small scope and random long sequences."""
+    equals [0] + re match ends + [len] on an exhaustive small scope and random long sequences; (iii) huge length
+    bounds: property oracle alone; (iv) the fast oracle equals its naive transcription."""
     fails = []
     rng = ctx.sub("sites")
     seqs = list(_all_seqs("KRPM", 6 if ctx.thorough else 5))
+    seqs += list(_all_seqs("DEFLkW", 4))
     aa = "ACDEFGHILNQSTVWYKKKRRRPPMM"
     for _ in range(300):
         seqs.append("".join(rng.choice(aa) for _ in range(rng.randint(0, 200))))
@@ -276,12 +613,41 @@ def extra_checks(ctx):
                 fails.append({"what": f"model site computation for {pat!r} on {s!r}: {got} but re gives {e}",
                               "failing_input": None})
     n_oracle = 0
-    for pat in GRID_ENZ + GRID_ENZ_R + ["", "K|", "(?=K)", "(?=M)", ".", "(?<!A)", "(?<=[KR])(?!P)"]:
+    pats = [(p, 0) for p in GRID_ENZ + GRID_ENZ_R + DOC_ENZ + ["", "K|", "(?=K)", "(?=M)", ".", "(?<!A)", "(?<=[KR])(?!P)"]
+            + WIDE_ENZ] + CASE_ENZ
+    for pat, fl in pats:
         for s in seqs:
-            e = ends_of(pat, s)
+            e = ends_of(pat, s, fl)
             n_oracle += 1
             if any(a > b for a, b in zip(e, e[1:])) or any(not (0 <= x <= len(s)) for x in e):
                 fails.append({"what": f"regex oracle contract broken: {pat!r} on {s!r} gives ends {e}",
                               "failing_input": None})
                 break
-    return fails, {"site_computations_checked": len(lines), "oracle_contract_checks": n_oracle}
+    # (iii)
+    big = _big_cases(ctx)
+    n_big_contract = 0
+    for c in big:
+        i = impl(c)
+        n_big_contract += contract_ok(c)
+        msg = oracle(c, i)
+        if msg:
+            fails.append({"what": "huge length bounds (property oracle only): " + msg, "failing_input": c})
+            break
+    # (iv)
+    rng = ctx.sub("oracle-selftest")
+    n_self = 0
+    for _ in range(400):
+        s = "".join(rng.choice("KRPAM") for _ in range(rng.randint(0, 12)))
+        c = _case(s, rng.choice(GRID_ENZ + ["K*", "$", "KK", ".(?=K)"]), 0, 0, 0, False, False, [])
+        if not contract_ok(c):
+            continue
+        a = (s, sites_of(c), rng.randint(0, 4), rng.randint(0, 4), rng.choice([1, 3, 6, 50]), rng.random() < 0.5,
+             rng.random() < 0.5)
+        n_self += 1
+        if spec_digest(*a) != spec_digest_naive(*a):
+            fails.append({"what": f"harness self-test: fast and naive property oracle differ on {a!r}", "failing_input": None})
+            break
+    return fails, {"site_computations_checked": len(lines), "oracle_contract_checks": n_oracle,
+                   "huge_bound_cases_checked_with_property_oracle_only": len(big),
+                   "huge_bound_cases_within_site_contract": n_big_contract,
+                   "oracle_selftest_cases": n_self}
